@@ -108,6 +108,23 @@ namespace nmtools::index
                 return return_t{};
             }
 
+            // numpy (normalize_axis_tuple): ValueError("repeated axis in `source`/`destination` argument")
+            auto has_repeated = [](const auto& array) {
+                auto repeated = false;
+                for (size_t i=0; (!repeated && i<(size_t)len(array)); i++) {
+                    for (size_t j=i+1; (!repeated && j<(size_t)len(array)); j++) {
+                        if (at(array,i)==at(array,j)) {
+                            repeated = true;
+                        }
+                    }
+                }
+                return repeated;
+            };
+            if (has_repeated(*src) || has_repeated(*dst)) {
+                valid = false;
+                return return_t{};
+            }
+
             auto in = [](auto v, const auto& array) {
                 auto found = false;
                 for (size_t i=0; (!found && i<len(array)); i++) {
